@@ -151,11 +151,11 @@ pub fn main(rest: &[String]) -> i32 {
     let mut seen_src: HashSet<String> = HashSet::new();
     let mut seen: HashSet<String> = HashSet::new();
     let mut targets: Vec<(Game, Vec<Move>)> = Vec::new(); // position, foreign pool
-    for line in f.lines() {
-        let line = line.unwrap();
-        if line.trim().is_empty() {
-            continue;
-        }
+    // the recorded positions are visited in a seeded random order, so that a quota smaller than the
+    // file samples the whole walk and not only its beginning
+    let mut lines: Vec<String> = f.lines().map(|l| l.unwrap()).filter(|l| !l.trim().is_empty()).collect();
+    lines.shuffle(&mut rng);
+    for line in lines {
         if targets.len() >= a.max_positions {
             break;
         }
